@@ -127,6 +127,9 @@ func c04Gen(r *RNG, tier string) []json.RawMessage {
 	// the render pass: callbacks of the application that write alignments while the table is being rendered
 	out = append(out, c04PassGen(r, tier, nextReg)...)
 
+	// items of every kind, cells holding cells; items that re-declare their sizes (c04_r6.go)
+	out = append(out, c04R6Gen(r, tier, nextReg)...)
+
 	// every assignment of {unset, left, right, centre} to column 0 and to each column, for 1, 2 and 3 columns
 	for ncols := 1; ncols <= 3; ncols++ {
 		total := 1
@@ -378,9 +381,11 @@ func init() {
 			"alignment histories: the column-0 default set before the columns exist, rows added, then the default changed, unset (SetProperty(key, nil)) or left alone, for every (early, late) pair with the header absent / first / last, and own settings made early then changed or unset; staged renders through one reused wrapper with shape-preserving changes in between (late cells, same-count second header) on a fifth of the random grids; paddings of 63..300 blanks under every alignment, declared widths / heights of 65..300; " +
 			"items without text declaring every class of width x height (body and header); render, same-size mutation (same width per line, same line count, other bytes) + Update through CellAt / Headers, render again through the same wrapper, for plain and sized items under every alignment; the application's own failing callbacks registered before the Wrap; another table rendered from inside the writer; BuildRenderW's StageFaults / FinalVia / FaultAt / Scribble / PropOps via enrichSpec; " +
 			"THE RENDER PASS: the application's own render-time property callbacks that set, change or clear align.PropertyType on a column (own column or the column-0 default; also a column that does not exist) while the table is being rendered - owners: the table, a column (column 0 included), the text wrapper named as owner, a row (separator and cell-less rows included), a cell, a header cell; on itself / on cells; pre-cell, cell and post-cell time; the column reached through the application's table or through the owner handed to the callback; registered after Wrap, before Wrap or on the empty table; values that change from render to render or from invocation to invocation (nil and 'no write' included); zero to two renders through the wrapper before the registration and one to three afterwards (the last is judged); alignments set, changed or cleared DIRECTLY between two renders through the one wrapper (no callback: every ordered pair of values on the default and on own columns), also combined with callbacks that write later; every owner kind x time x written column x two value histories on the fixed hostile grid, pairs and triples of callbacks in one pass, every ordered pair of values across two renders, small tables, and on about a quarter of the random grids - the callbacks log their writes in execution order and the render is judged (model and oracle) on the built view with those writes applied in Coq (Model/TextPass.v after_callbacks: last write wins, nil clears): the padding must follow the alignments in force when the callbacks have finished; " +
+			"ITEMS OF EVERY KIND, CELLS HOLDING CELLS (c04_r6.go): nil, runes, ints, bools, floats, slices, maps, structs, by-value Stringers, error values, objects with GoString / Error only, and every such item (strings and size-declaring objects included) held in tabular.Cell values - by value, by pointer, to depth 3 in every nesting order - entering through AddHeaders, AddRowItems, Row.Add(NewCell(..)) before / after the row joined the table, NewRowSizedFor, under every alignment; a cell holding a cell must show the inner item's lines with the inner cell's width and height (expected from the spec: deepShown); " +
+			"ITEMS THAT RE-DECLARE: build, render, then one to three rounds of { items change their text and / or the width and / or the height they declare - every non-empty subset of the three, for items declaring a width, a height or both, single-line, multi-line, escape-coded and empty texts, in the header, in AddRowItems rows and in pre-built rows; Cell.Update through CellAt / Headers, or deliberately no Update (the cell keeps what it last read; updated one round later or never) ; render through the same wrapper }: the last render is judged on the view in which every cell shows its item as of the cell's last read (shownTable; Model/TextMut.v c04_update_rereads, c04_mutate_not_shown); also on random grids; " +
 			"the expected view (texts, effective alignments) is computed from the SPEC alone (TableSpec.SpecView) and the sizes of items that declare them from the spec's declared numbers (not from the library's Cell), not read back from the table under test; " +
 			"multi-line items declaring a width below one of their lines are outside the statement (tagged excluded:..., still compared with the model); a case is non-trivial when the table has at least one column and no excluded item",
-		Exhaustive: "all 336 alignment assignments for <= 3 columns on the fixed grid; all width-class x height-class pairs on 7 body texts and 2 header texts; render-time alignment callbacks: owner kind (9) x time x written column (0..3) x 2 value histories",
+		Exhaustive: "all 336 alignment assignments for <= 3 columns on the fixed grid; all width-class x height-class pairs on 7 body texts and 2 header texts; render-time alignment callbacks: owner kind (9) x time x written column (0..3) x 2 value histories; item kinds (16 non-string kinds + 6 texts + declared-size classes) x 6 ways of holding the item in cells; re-declarations: {width, height, both} x every non-empty subset of {text, width, height} changing x {header, AddRowItems row, pre-built row} x 4 texts",
 		Gen:        c04Gen,
 		Run:        runC04Spec,
 		Shrink:     shrinkC04JSON,
